@@ -17,14 +17,13 @@ func VerifC03MPSC() {
 		q = NewQueueMPSC()
 	}
 	lastSeen := make([]int, producers) // per producer: last sequence number the consumer saw
-	popped := make([]int, producers)
 	pushed := make([]int, producers)
 	for p := 0; p < producers; p++ {
 		p := p
 		VerifGo("producer", func() {
 			for i := 1; i <= k; i++ {
 				if q.Push(p*100 + i) {
-					VerifSharedAdd(&pushed[p], 1)
+					VerifSharedStore(&pushed[p], i)
 				}
 			}
 		})
@@ -33,9 +32,8 @@ func VerifC03MPSC() {
 		x := v.(int)
 		p, i := x/100, x%100
 		prev := VerifSharedLoad(&lastSeen[p])
-		VerifAssert(i > prev, "values of one producer are popped in push order")
+		VerifAssert(i == prev+1, "values of one producer are popped in push order, each exactly once")
 		VerifSharedStore(&lastSeen[p], i)
-		VerifSharedAdd(&popped[p], 1)
 	}
 	VerifGo("consumer", func() {
 		for n := 0; n < pops; n++ {
@@ -55,8 +53,8 @@ func VerifC03MPSC() {
 			consume(v)
 		}
 		for p := 0; p < producers; p++ {
-			VerifAssert(VerifSharedLoad(&popped[p]) == VerifSharedLoad(&pushed[p]), "every accepted value is popped exactly once")
+			VerifAssert(VerifSharedLoad(&lastSeen[p]) == VerifSharedLoad(&pushed[p]), "every accepted value is popped exactly once")
 		}
-		VerifAssert(q.Len() == 0 && q.Item() == nil, "an emptied queue is empty")
+		VerifAssert(q.Item() == nil, "an emptied queue is empty")
 	})
 }
